@@ -633,7 +633,59 @@ func doShrink() {
 	before := len(rp.Script)
 	best, execs := core.Shrink(rp.Script, rp.Class, exec1, *fBudget)
 	rp.Script = best
-	rp.Shrunk = map[string]any{"choices_before": before, "choices_after": len(best), "executions": execs}
+	// the parameters that are not drawn (the fault plan) shrink too: drop
+	// the second fault, move the fault instants towards the start; the
+	// executor reads rp.Params, so candidates are tried in place
+	paramTries := 0
+	if len(rp.Params) > 0 {
+		holds := func() bool {
+			paramTries++
+			c, _, _ := exec1(rp.Script)
+			return core.SameClass(c, rp.Class)
+		}
+		if _, two := rp.Params["fault2_at"]; two {
+			saved := map[string]int{}
+			for _, k := range []string{"fault2_at", "fault2_kind", "fault2_target"} {
+				saved[k] = rp.Params[k]
+				delete(rp.Params, k)
+			}
+			if !holds() {
+				for k, v := range saved {
+					rp.Params[k] = v
+				}
+			}
+		}
+		for _, k := range []string{"fault_at", "fault2_at"} {
+			for paramTries < 60 {
+				v, ok := rp.Params[k]
+				if !ok || v <= 0 {
+					break
+				}
+				moved := false
+				for _, cand := range []int{v / 2, v - 1} {
+					if cand == v {
+						continue
+					}
+					rp.Params[k] = cand
+					if holds() {
+						moved = true
+						break
+					}
+					rp.Params[k] = v
+				}
+				if !moved {
+					break
+				}
+			}
+		}
+		if paramTries > 0 && *fBudget-execs > 50 {
+			// with the fault earlier, more of the plan may be removable
+			b2, e2 := core.Shrink(rp.Script, rp.Class, exec1, (*fBudget-execs)/2)
+			rp.Script, best = b2, b2
+			execs += e2
+		}
+	}
+	rp.Shrunk = map[string]any{"choices_before": before, "choices_after": len(best), "executions": execs + paramTries}
 	b, _ := json.MarshalIndent(rp, "", " ")
 	if err := os.WriteFile(*fShrink, b, 0o644); err != nil {
 		trouble("%v", err)
